@@ -1912,6 +1912,21 @@ func (cs *State) addProposalBlockPart(msg *BlockPartMessage, peerID p2p.ID) (add
 			return added, err
 		}
 
+		// The part set header validators vote on is computed over the bytes the
+		// proposer sent, but everybody who has to come up with it later only has
+		// the block: a node serving the block to a syncing peer re-encodes what
+		// it loads from its store, and the syncing node builds the part set of
+		// what it decoded. Only take the canonical encoding of a block as a
+		// proposal, otherwise the block could be committed under a part set
+		// header nobody can reproduce (a decoder skips unknown fields, so the
+		// same block has many valid encodings). Once the network has decided
+		// (commit step) the parts we are collecting are the ones +2/3 precommitted
+		// and there is nothing left to refuse.
+		if cs.Step != cstypes.RoundStepCommit &&
+			!block.MakePartSet(types.BlockPartSizeBytes).HasHeader(cs.ProposalBlockParts.Header()) {
+			return added, fmt.Errorf("proposal block parts are not the canonical encoding of block %X", block.Hash())
+		}
+
 		cs.ProposalBlock = block
 
 		// NOTE: it's possible to receive complete proposal blocks for future rounds without having the proposal
